@@ -210,6 +210,8 @@ def execute(sc):
             X0 = np.stack([np.roll(pts, k) for k in range(d)], axis=1).astype(float)
         y0 = np.array([_objective(sc, x) for x in X0])
         e0 = np.full(sc["n0"], 0.05) if sc["y_err"] else None
+        if sc["n0"] >= 24:
+            stats["probe_optimiser_holds_24_or_more_evaluations"] += 1
         if sc["x_form"] == "int":
             x_in = X0.astype(np.int64)
         elif d == 1 and sc["x_form"] == "1d":
